@@ -136,21 +136,12 @@ def run(ctx):
         ok = M.strip(a[0], also=("core::slice::<impl [T]>::as_ptr",)) == ("param", 1, pp.local_name(1)) and M.strip(a[1], also=("core::slice::<impl [T]>::len",)) == ("param", 1, pp.local_name(1))
     ctx.ob("R01.2", "libc::poll(fds,len)", ok, pp.loc(0), "posix::poll hands the whole slice (pointer and its own length) to libc::poll")
     # shortcut paths: 8 presence patterns x deadline None/Some
-    is_none_sw = None
-    for bb in mp.live_blocks():
-        t = mp.blocks[bb]["term"]
-        if t["k"] == "switch":
-            st = M.switch_term(mp, Tm, bb)
-            if st[0] == "call" and st[1] == "std::option::Option::<T>::is_none" and M.noref(st[2][0]) == ("param", 4, mp.local_name(4)):
-                is_none_sw = st
     nrows = 0
     for dl in (0, 1):
         for pat in itertools.product((0, 1), repeat=3):
             nrows += 1
             assume = {("param", k + 1, pnames[k]): pat[k] for k in range(3)}
             assume[("param", 4, mp.local_name(4))] = dl
-            if is_none_sw is not None:
-                assume[is_none_sw] = 1 - dl
             ex = M.Explore(mp, assume=assume, tries="ok")
             Tx = M.Terms(mp, blocks=ex.blocks)
             consts = []
